@@ -34,7 +34,7 @@ pub async fn account_snapshot(account: &mut LocalAccount) -> Result<Value> {
     Ok(json!(folders))
 }
 
-async fn read_entries(path: &Path) -> Result<Vec<(String, Vec<u8>)>> {
+pub async fn read_entries(path: &Path) -> Result<Vec<(String, Vec<u8>)>> {
     let file = BufReader::new(tokio::fs::File::open(path).await?);
     let mut zip = ZipReader::new(file).await?;
     let names: Vec<String> = zip
